@@ -15,10 +15,10 @@ from fractions import Fraction
 
 from .. import core, gen_tables
 
-RULE = ("pairs: EVERY ordered pair of the 221 table types x bond orders {guessed, 1, 1.5, 2} (+ random user bond-order "
+RULE = ("pairs: EVERY ordered pair of the 221 table types x bond orders {guessed, 1, 1.5, 2} (+ explicit bond orders from a continuous range 0.1..8, bond_orders as list/tuple/array, random user bond-order "
         "rules, sets of 1-3 types in both listing orders); triples: every centre type with random ends (quick) / every "
         "ordered triple on the real code (thorough); quadruples: every centre type, every torsion class, random ends, "
-        "multiplicities 1..9 (quick) / every centre pair x end classes x multiplicities 1..9 (thorough); pair "
+        "multiplicities 1..40 (quick) / every centre pair x end classes x multiplicities 1..9, 12, 40 (thorough); pair "
         "coefficients: every type; ORDERED call sequences with the code's default arguments whose consecutive terms have "
         "different guessed bond orders (forward and reversed), and the real assign_bond/angle/dihedral_types call order on "
         "random type graphs (every coefficient line vs. the oracle); the assign_* entry points on real Atoms objects "
@@ -227,9 +227,14 @@ def real(inp):
                 bos = None
                 if inp.get("bo1") is not None or inp.get("bo2") is not None:
                     bos = [_bo_py(inp.get("bo1")), _bo_py(inp.get("bo2"))]
+                    if inp.get("bos_as") == "tuple":
+                        bos = tuple(bos)
+                    elif inp.get("bos_as") == "array" and None not in bos:
+                        import numpy as np
+                        bos = np.array(bos)
                     kw["bond_orders"] = bos
                 res = ru.angle_params(inp["a1"], inp["a2"], inp["a3"], **kw)
-                if bos is not None and bos != [_bo_py(inp.get("bo1")), _bo_py(inp.get("bo2"))]:
+                if bos is not None and list(bos) != [_bo_py(inp.get("bo1")), _bo_py(inp.get("bo2"))]:
                     MUTATED.append((inp, "bond_orders list changed to %r" % (bos,)))
                 if res[0] == "cosine/periodic":
                     return {"style": res[0], "v": [float(res[1]), res[2], res[3]]}
@@ -363,7 +368,7 @@ def oracle(inp, res, rev):
             return bad
         if not vals_close(res, want):
             bad.append(("bond parameters differ from the UFF formula", res, want))
-        if n <= 2 and not (res["v"][0] > 0 and res["v"][1] > 0):
+        if n <= 32 and not (res["v"][0] > 0 and res["v"][1] > 0):          # theorems bond_len_pos_wide / bond_k_pos_wide
             bad.append(("bond force constant / length not positive", res, "k > 0 and r > 0"))
     elif op == "uff_angle":
         n12, n23 = _bo_py(inp.get("bo1")), _bo_py(inp.get("bo2"))
@@ -382,7 +387,8 @@ def oracle(inp, res, rev):
             bad.append(("angle potential style differs from the documented one", res, want))
         elif not vals_close(res, want):
             bad.append(("angle parameters differ from the UFF formula", res, want))
-        if n12 <= 2 and n23 <= 2 and not res["v"][0] > 0:
+        lo = 0.0 if keys[inp["a2"]][1] >= 90.0 else 0.05      # obtuse centres: (0,32] (angle_k_pos_obtuse_wide); acute: [0.05,32]
+        if lo < n12 <= 32 and lo < n23 <= 32 and not res["v"][0] > 0:
             bad.append(("angle force constant not positive (centre %s)" % inp["a2"], res, "K > 0"))
     elif op == "uff_dihedral":
         n23 = _bo_py(inp.get("bo"))
@@ -456,7 +462,7 @@ def rand_rules(rng, keys, around=None):
         if rng.random() < 0.15:
             base.append(base[0])
         rng.shuffle(base)
-        rules.append([base, _q(rng.choice([0.5, 1, 1.25, 1.5, 1.75, 2, 2.5, 3]))])
+        rules.append([base, _q(_cont_bo(rng) if rng.random() < 0.25 else rng.choice([0.5, 1, 1.25, 1.5, 1.75, 2, 2.5, 3]))])
     return rules
 
 
@@ -478,6 +484,13 @@ def gen_pairs(ctx):
         rules = rand_rules(rng, keys, around=[a, b])
         out.append({"op": "bond_order", "a1": a, "a2": b, "rules": rules})
         out.append({"op": "uff_bond", "a1": a, "a2": b, "bo": None, "rules": rules})
+    # explicit bond orders from a continuous range (0.1 .. 8), every type on either side
+    for i in range(ctx.n(4000, 40000)):
+        a = keys[i % len(keys)]
+        b = a if rng.random() < 0.1 else rng.choice(keys)
+        if rng.random() < 0.5:
+            a, b = b, a
+        out.append({"op": "uff_bond", "a1": a, "a2": b, "bo": _q(_cont_bo(rng))})
     # strings that are not table keys: the guess is defined for every string
     odd = ["", "C", "C_", "C_RR", "H_b", "_", "__", "X_3", "O_3_z", "c_r", "C_2 ", "N_R"]
     for a in odd:
@@ -489,8 +502,13 @@ def gen_pairs(ctx):
     return out
 
 
+def _cont_bo(rng):
+    """a positive bond order from a continuous (log-uniform) range 0.1 .. 8, as the double it is"""
+    return math.exp(rng.uniform(math.log(0.1), math.log(8.0)))
+
+
 def _rand_bo(rng):
-    return rng.choice([None, None, None, None, 1, 1.5, 2])
+    return _cont_bo(rng) if rng.random() < 0.25 else rng.choice([None, None, None, None, 1, 1.5, 2])
 
 
 def gen_triples(ctx, per_centre):
@@ -506,6 +524,7 @@ def gen_triples(ctx, per_centre):
             r = rng.random()
             if r < 0.15:
                 inp["bo1"], inp["bo2"] = _q(_rand_bo(rng)), _q(_rand_bo(rng))
+                inp["bos_as"] = rng.choice(["list", "tuple", "array"])      # container spelling of bond_orders
             elif r < 0.2:
                 inp["rules"] = rand_rules(rng, keys, around=[a1, c, a3])
             out.append(inp)
@@ -524,10 +543,11 @@ def gen_quads(ctx, n_random, per_class):
     def mk(a2, a3, e0=None, e3=None):
         e0 = rng.random() < 0.4 if e0 is None else e0
         e3 = rng.random() < 0.4 if e3 is None else e3
-        inp = {"op": "uff_dihedral", "a1": end(e0), "a2": a2, "a3": a3, "a4": end(e3), "m": rng.randint(1, 9), "bo": None}
+        inp = {"op": "uff_dihedral", "a1": end(e0), "a2": a2, "a3": a3, "a4": end(e3),
+               "m": rng.randint(1, 9) if rng.random() < 0.8 else rng.randint(10, 40), "bo": None}
         r = rng.random()
         if r < 0.12:
-            inp["bo"] = _q(rng.choice([1, 1.5, 2]))
+            inp["bo"] = _q(rng.choice([1, 1.5, 2]) if rng.random() < 0.6 else _cont_bo(rng))
         elif r < 0.16:
             inp["rules"] = rand_rules(rng, keys, around=[a2, a3])
         return inp
@@ -709,6 +729,8 @@ def _mk_atoms(inp):
     from mofun import Atoms
     ut = inp["uff"]
     n = len(ut)
+    if n == 0:
+        return Atoms()
     els = [o_elem(t) or "X" for t in ut]
     uniq = list(dict.fromkeys(els))
     kw = dict(atom_types=[uniq.index(e) for e in els], atom_type_elements=uniq, atom_type_masses=[1.0 + i for i in range(len(uniq))],
@@ -767,8 +789,6 @@ def check_assign(inp):
             kw["exclude"] = set(excl)
         for kind, arity, fn, want in (("bond", 2, ru.assign_bond_types, want_bond), ("angle", 3, ru.assign_angle_types, want_angle)):
             orig = [tuple(t) for t in inp.get(kind + "s") or []]
-            if not orig:
-                continue
             try:
                 fn(atoms, ut, **kw)
             except Exception as e:  # noqa
@@ -795,7 +815,7 @@ def check_assign(inp):
                 if tuple(com.split()) not in (names, names[::-1]):
                     bad.append(("%s type comment names other types than the term's" % kind, coeffs[ty], " ".join(names)))
                     break
-        if dih0:
+        if True:                                               # an empty torsion list is exercised too
             exp_live = [t for t in dih0 if kept(t, 4)]
             wants = {t: want_dih(t) for t in exp_live}
             must_raise = any(w.get("err") == "unsupported" for w in wants.values())
@@ -933,7 +953,14 @@ def assign_entry_stream(ctx, n_mol):
     fixed = [(["H_", "H_", "H_", "C_3", "C_3", "H_", "H_", "H_"], [(0, 3), (1, 3), (2, 3), (3, 4), (4, 5), (4, 6), (4, 7)]),
              (["C_2", "H_", "C_2", "C_3", "H_", "H_", "H_"], [(0, 2), (1, 2), (2, 3), (3, 4), (3, 5), (3, 6)]),
              (["C_R", "C_R", "C_R", "C_R", "C_R", "C_R"], [(0, 2), (1, 2), (2, 3), (3, 4), (3, 5)]),
-             (["H_", "O_3", "S_3+2", "H_", "C_3"], [(0, 1), (1, 2), (2, 3), (2, 4)])]
+             (["H_", "O_3", "S_3+2", "H_", "C_3"], [(0, 1), (1, 2), (2, 3), (2, 4)]),
+             # degenerate term lists: no atoms; one atom; one bond only; one angle only; exactly one torsion;
+             # every torsion undefined (sp centres / transition-metal centre); a single undefined torsion
+             ([], []), (["C_3"], []), (["C_3", "H_"], [(0, 1)]), (["H_", "O_3", "H_"], [(0, 1), (1, 2)]),
+             (["H_", "C_3", "N_3", "H_"], [(0, 1), (1, 2), (2, 3)]),
+             (["H_", "C_1", "C_1", "C_1", "N_1"], [(0, 1), (1, 2), (2, 3), (3, 4)]),
+             (["O_2", "Cu4+2", "O_2", "C_R", "O_2"], [(0, 1), (1, 2), (2, 3), (3, 4)]),
+             (["H_", "C_1", "C_1", "H_"], [(0, 1), (1, 2), (2, 3)])]
     mols = list(fixed)
     for _ in range(n_mol):
         n = rng.randint(5, 10)
@@ -959,8 +986,8 @@ def assign_entry_stream(ctx, n_mol):
                "dihedrals": [list(t) for t in d], "rules": None, "exclude": None}
         r = rng.random()
         if r < 0.25:
-            inp["rules"] = rand_rules(rng, keys, around=[rng.choice(ut), rng.choice(ut)])
-        if rng.random() < 0.2:
+            inp["rules"] = rand_rules(rng, keys, around=[rng.choice(ut), rng.choice(ut)] if ut else None)
+        if rng.random() < 0.2 and len(ut) >= 2:
             inp["exclude"] = sorted(rng.sample(range(len(ut)), rng.randint(2, min(5, len(ut)))))
         if rng.random() < 0.3:
             inp["via"] = "copy"
@@ -1066,7 +1093,7 @@ def _sweep_centre(j):
 
 
 def _sweep_mid(j):
-    """every centre pair (keys[j], *) x end classes x multiplicities 1..9 on the real code"""
+    """every centre pair (keys[j], *) x end classes x multiplicities 1..9, 12, 40 on the real code"""
     keys = table()["keys"]
     a2 = keys[j]
     fails, n, classes = [], 0, {}
@@ -1075,7 +1102,7 @@ def _sweep_mid(j):
         for a3 in keys:
             for e0, _ in ends:
                 for e3, _ in ends:
-                    for m in range(1, 10):
+                    for m in (1, 2, 3, 4, 5, 6, 7, 8, 9, 12, 40):
                         inp = {"op": "uff_dihedral", "a1": e0, "a2": a2, "a3": a3, "a4": e3, "m": m, "bo": None}
                         r, bad = evaluate(inp)
                         n += 1
@@ -1162,7 +1189,7 @@ def run(ctx, oracle_only=False):
                 for e0 in ("C_2", "H_"):
                     for e3 in ("C_2", "H_"):
                         cls.append({"op": "uff_dihedral", "a1": e0, "a2": a2, "a3": a3, "a4": e3,
-                                    "m": ctx.rng.randint(1, 9), "bo": None})
+                                    "m": ctx.rng.randint(1, 40), "bo": None})
         _batch(ctx, cls, oracle_only, "quads-class-exhaustive")
         kmin = (float("inf"), None)
         with _pool() as pool:
@@ -1183,7 +1210,7 @@ def run(ctx, oracle_only=False):
                     ctx.fail(what, inp, observed=obs, required=req)
         ctx.notes.append("exhaustive sweep of all %d ordered triples on the real code (guessed bond orders): smallest angle "
                          "force constant %.6g at %s" % (len(keys) ** 3, kmin[0], "-".join(kmin[1] or ())))
-        ctx.notes.append("torsions: every ordered centre pair x {sp2 end, other end}^2 x multiplicities 1..9 on the real code; "
+        ctx.notes.append("torsions: every ordered centre pair x {sp2 end, other end}^2 x multiplicities 1..9, 12, 40 on the real code; "
                          "the case analysis depends on the ends only through that flag (theorem torsion_factors_through_classes)")
     ctx.exhaustive = True
     ctx.notes.append("exhaustive: all %d ordered pairs x bond orders {guessed,1,1.5,2}, all pair coefficients, all pairs "
